@@ -110,9 +110,26 @@ def close_helpers():
 
 
 # ------------------------------------------------------------------------ gen
+def _big(seed, tier, profile):
+    # a quarter of the thorough-tier scenarios are larger (not for the real-monitor / paired profiles)
+    return tier == 'thorough' and profile not in ('real', 'repro', 'units', 'delay') \
+        and random.Random('big/%s' % seed).random() < 0.25
+
+
 def gen_case(kind, profile, seed, tier='quick'):
     if kind == 'sim':
-        return {'kind': 'sim', 'sc': S.gen(seed, profile)}
+        return {'kind': 'sim', 'sc': S.gen(seed, profile, big=_big(seed, tier, profile))}
+    if kind == 'taskdrv':
+        rng = random.Random('taskdrv/%s' % seed)
+        k = rng.choice([1, 1, 2, 3, 5, 7, 60, 3600])
+        ms = [[rng.choice([1, 2, 4, 5, 10]) * k, rng.choice([1, 2, 5]) * k] for _ in range(rng.randint(1, 3))]
+        tasks = []
+        for _ in range(rng.randint(2, 8)):
+            m = rng.randrange(len(ms))
+            cm = rng.choice([0, 0, 0.3, 0.99, 1, 1.01, 1.5, 2, 2.999, 3, 7, 11])
+            dm = rng.choice([0, 0, 0, 0.5, 1, 2.5, 4, 9])
+            tasks.append([m, cm * ms[m][0], dm * ms[m][1], rng.choice([0, 0, 0, 1, 2, 5])])
+        return {'kind': 'taskdrv', 'machines': ms, 'tasks': tasks}
     if kind == 'cluster_ops':
         deep = tier == 'thorough'
         return om.gen_cluster_case(seed, depth=30 if deep else 12, maxm=6 if deep else 4)
@@ -159,6 +176,8 @@ def exec_case(case, d):
         return _out(om.run_cluster_case(case, d))
     if k == 'buffer_ops':
         return _out(om.run_buffer_case(case, d))
+    if k == 'taskdrv':
+        return exec_taskdrv(case, d)
     if k == 'repro':
         return exec_repro(case, d)
     if k == 'pause':
@@ -168,6 +187,61 @@ def exec_case(case, d):
     if k == 'delaymodel':
         return exec_delaymodel(case, d)
     raise ValueError(k)
+
+
+# ......................................................... C06 task driver
+def exec_taskdrv(case, d):
+    """Single Task.do_work executions on generated machines, driven directly (no scheduler): the
+    runtime formula on demands of 0, less than one step of capacity, exact multiples and
+    non-multiples, with per-task extra delay through the task.delay seam."""
+    from .env import VerifEnv
+    from topsim.core.task import Task
+    from topsim.core.machine import Machine
+    viol = []
+
+    def add(clause, msg, site=''):
+        if not any(v['clause'] == clause and v['site'] == site for v in viol):
+            viol.append(dict(prop='C06', clause=clause, site=site, msg=msg[:300], t=None, seq=None))
+    env = VerifEnv()
+    ms = [Machine('m%d' % i, c, 1, 1, b) for i, (c, b) in enumerate(case['machines'])]
+    recs = []
+    for i, (mi, flops, data, extra) in enumerate(case['tasks']):
+        t = Task('x_0_%d' % i, 0, 0, None, [], flops, data, {}, sut.InjectedDelay(extra))
+        p = env.process(t.do_work(env, ms[mi], None))
+        recs.append((t, p, mi, flops, data, extra))
+    try:
+        env.budget = 2000
+        env.run()
+    except Exception as e:
+        add('do_work_raises', '%s: %s' % (type(e).__name__, e))
+    out = []
+    for (t, p, mi, flops, data, extra) in recs:
+        c, b = case['machines'][mi]
+        n = max(int(flops / c), int(data / b))
+        if not p.triggered:
+            add('never_finished', '%s' % t.id)
+            continue
+        d_ = t.aft - t.ast
+        given_extra = extra if n > 0 else 0
+        want = max(1, n + given_extra)
+        if abs(d_ - want) > 1e-9:
+            add('runtime', 'flops %s data %s on cpu %s bw %s (+%s): finish-start=%s, expected %s' % (
+                flops, data, c, b, extra, d_, want), site='n=0' if n == 0 else 'n>0')
+        if given_extra > 0 and not t.delay_flag:
+            add('delayed_task_not_flagged', t.id)
+        out.append((mi, flops, data, given_extra, d_, c, b))
+    for a in out:
+        for b_ in out:
+            if a is b_ or a[3] != b_[3]:
+                continue
+            if a[0] == b_[0] and a[1] <= b_[1] and a[2] <= b_[2] and a[4] > b_[4] + 1e-9:
+                add('not_monotone_in_work', '%s vs %s' % (a, b_))
+            if a[1] == b_[1] and a[2] == b_[2] and a[5] <= b_[5] and a[6] <= b_[6] and a[4] < b_[4] - 1e-9:
+                add('not_monotone_in_speed', '%s vs %s' % (a, b_))
+    return dict(status='ok', exc=None, T=float(env.now), nevents=env.nevents, digest=env.digest(), violations=viol,
+                probes={'zero_runtime_task': sum(1 for o in out if max(int(o[1] / o[5]), int(o[2] / o[6])) == 0),
+                        'long_task': sum(1 for o in out if o[4] >= 3), 'mono_pairs': len(out) * (len(out) - 1)},
+                faults={'F1': sum(1 for o in out if o[3] > 0)}, states=[])
 
 
 # ............................................................... C10 repro
